@@ -12,8 +12,9 @@ import (
 // and converting relative URLs into absolute URLs. An error is returned if the URL
 // cannot be normalized.
 func NormalizeURL(URL *models.URL, parentURL *models.URL) (err error) {
-	// Clean the URL by removing leading and trailing quotes
-	URL.Raw = strings.Trim(URL.Raw, `"'`)
+	// Clean the URL by removing the surrounding ASCII whitespace (as a browser does with
+	// an attribute value), then leading and trailing quotes
+	URL.Raw = strings.Trim(strings.Trim(URL.Raw, " \t\n\r\f"), `"'`)
 
 	var adaParse *goada.Url
 
